@@ -19,15 +19,15 @@ theorem reach_in_closed (g : Cfg) (a : Nat) (S : Nat → Prop) (ha : S a)
 
 /-! ### current code (mark on dequeue) -/
 
-structure InvCur (g : Cfg) (src tgt : Nat) (s : PState) : Prop where
+structure InvOld (g : Cfg) (src tgt : Nat) (s : PState) : Prop where
   qreach : ∀ x ∈ s.que, Reach g src x
   vis    : ∀ x ∈ s.vis, x ≠ tgt ∧ ∀ y ∈ succs g x, y ∈ s.vis ∨ y ∈ s.que
   src    : src ∈ s.vis ∨ src ∈ s.que
 
-theorem runCur_correct (g : Cfg) (src tgt : Nat) :
-    ∀ (fuel : Nat) (s : PState) (c : Nat), InvCur g src tgt s →
-      (runWith (stepCur g tgt) fuel s c).done = true →
-      ((runWith (stepCur g tgt) fuel s c).answer = true ↔ Reach g src tgt)
+theorem runOld_correct (g : Cfg) (src tgt : Nat) :
+    ∀ (fuel : Nat) (s : PState) (c : Nat), InvOld g src tgt s →
+      (runWith (stepOld g tgt) fuel s c).done = true →
+      ((runWith (stepOld g tgt) fuel s c).answer = true ↔ Reach g src tgt)
   | 0, s, c, _, hd => by simp [runWith] at hd
   | fuel + 1, s, c, inv, hd => by
     cases hq : s.que with
@@ -42,19 +42,19 @@ theorem runCur_correct (g : Cfg) (src tgt : Nat) :
         rcases (inv.vis x hx).2 y hy with h | h
         · exact h
         · rw [hq] at h; simp at h)
-      simp only [runWith, stepCur, hq]
+      simp only [runWith, stepOld, hq]
       constructor
       · intro h; simp at h
       · intro hr; exact absurd rfl (inv.vis tgt (hall tgt hr)).1
     | cons cur rest =>
       by_cases hc : cur = tgt
       · subst hc
-        simp only [runWith, stepCur, hq, if_true]
+        simp only [runWith, stepOld, hq, if_true]
         constructor
         · intro _; exact inv.qreach cur (by simp [hq])
         · intro _; trivial
       · have hcr : Reach g src cur := inv.qreach cur (by simp [hq])
-        have inv' : InvCur g src tgt
+        have inv' : InvOld g src tgt
             { que := rest ++ (succs g cur).filter (fun nb => !(cur :: s.vis).contains nb), vis := cur :: s.vis } := {
           qreach := by
             intro x hx
@@ -89,8 +89,8 @@ theorem runCur_correct (g : Cfg) (src tgt : Nat) :
               rcases h with h | h
               · exact Or.inl (by simp [h])
               · exact Or.inr (by simp [h]) }
-        simp only [runWith, stepCur, hq, hc, if_false] at hd ⊢
-        exact runCur_correct g src tgt fuel _ (c + 1) inv' hd
+        simp only [runWith, stepOld, hq, hc, if_false] at hd ⊢
+        exact runOld_correct g src tgt fuel _ (c + 1) inv' hd
 
 /-! ### repaired code (mark on enqueue) -/
 
